@@ -296,6 +296,15 @@ func (n *Node) Destroy() {
 	_ = os.RemoveAll(n.Dir)
 }
 
+// Router returns a real interchain router on this node's ledger (no peers).
+func (n *Node) Router() *verifhook.InterchainRouter {
+	r, err := verifhook.NewRouter(Logger, n.Repo, n.Ledger, nil, 1)
+	if err != nil {
+		panic(err)
+	}
+	return r
+}
+
 // Rollback rolls the ledger back like the executor does on a height mismatch.
 func (n *Node) Rollback(h uint64) error { return n.Ledger.Rollback(h) }
 
